@@ -47,7 +47,33 @@ fn run_one(cfg: &WorldCfg, ops: &[Op], plan: FaultPlan, tail: u64) -> FaultRun {
     // terminal first; the logical state is untouched by any of them)
     let spy2 = crate::spy::SpyTerm::new(cfg.width, cfg.height, false);
     let mp2 = indicatif::MultiProgress::with_draw_target(indicatif::ProgressDrawTarget::term_like(spy2.boxed()));
-    if bad.is_none() && tail > 0 {
+    if bad.is_none() && tail == 4 {
+        // ---- tail 4: nobody moves; the MultiProgress still knows every member whose draw may have failed --------
+        // (round 11: a bar that detaches itself from its MultiProgress after an error of one particular kind)
+        if let Some(mp) = w.mp.clone() {
+            let fresh = || indicatif::ProgressBar::with_draw_target(Some(1), indicatif::ProgressDrawTarget::hidden());
+            for b in w.bars.iter().flatten() {
+                let Some(h) = b.handles.first() else { continue };
+                if b.m.place != crate::world::Place::Member {
+                    continue;
+                }
+                let probes: Vec<(&str, Box<dyn Fn()>)> = vec![
+                    ("insert_after(member)", Box::new(|| drop(mp.insert_after(h, fresh())))),
+                    ("insert_before(member)", Box::new(|| drop(mp.insert_before(h, fresh())))),
+                ];
+                for (pname, pf) in probes {
+                    if let Err(p) = catch_unwind(AssertUnwindSafe(pf)) {
+                        bad = Some(("later-call-panics", format!("{pname} relative to B{}, a member whose earlier draws may have failed, panicked: {}", b.m.id, crate::world::panic_message(&p)), pname.to_string()));
+                        break;
+                    }
+                }
+                if bad.is_some() {
+                    break;
+                }
+            }
+        }
+    }
+    if bad.is_none() && tail > 0 && tail < 4 {
         let mp = w.mp.clone();
         for b in w.bars.iter().flatten() {
             let Some(h) = b.handles.first() else { continue };
@@ -215,7 +241,7 @@ fn run_case(seed: u64, idx: u64) -> CaseOut {
     cfg.move_cursor = multi && rng.chance(1, 2);
     let replay = format!("{seed}:{idx}");
     // a third of the histories end with a live bar changing its terminal
-    let tail = if rng.chance(1, 3) { rng.range(1, 3) } else { 0 };
+    let tail = if rng.chance(1, 3) { rng.range(1, 4) } else { 0 };
     // the kind of error the terminal reports (no kind is a licence to swallow the failure)
     let err_kind = rng.below(crate::spy::FAULT_KINDS.len() as u64) as u8;
     let base = run_one(&cfg, &ops, FaultPlan::default(), tail);
@@ -224,7 +250,7 @@ fn run_case(seed: u64, idx: u64) -> CaseOut {
         J::obj()
             .with("terminal", format!("{}x{} multi={} move_cursor={}", cfg.width, cfg.height, cfg.multi, cfg.move_cursor))
             .with("ops", J::Arr(ops.iter().map(|o| o.to_json()).collect()))
-            .with("tail", ["none", "set_draw_target", "add to a second MultiProgress", "re-add to its own MultiProgress"][tail as usize])
+            .with("tail", ["none", "set_draw_target", "add to a second MultiProgress", "re-add to its own MultiProgress", "insert relative to every member"][tail as usize])
             .with("error_kind", format!("{:?}", crate::spy::FAULT_KINDS[err_kind as usize]))
             .with("fail_call", k)
             .with("and_all_later", later)
